@@ -741,6 +741,17 @@ impl Prop for P {
         cases
     }
 
+    fn refresh_corpus_line(&self, line: &str) -> String {
+        let f: Vec<&str> = line.split('\t').collect();
+        // kind, keys, prefill, cap, script, flush, calls: the calls are re-measured from the in-memory build
+        if f.len() == 7 && f[0] != "cont" {
+            let r = reference(f[0], &parse_keys(f[1]));
+            let mut g: Vec<String> = f.iter().map(|x| x.to_string()).collect();
+            g[6] = calls_string(&r.calls);
+            return g.join("\t");
+        }
+        line.to_string()
+    }
     fn nontrivial(&self, case: &str) -> bool {
         let f: Vec<&str> = case.split('\t').collect();
         f.len() == 7 && f[1] != "-" && (f[4] != "-" || f[3] != "-")
